@@ -215,7 +215,7 @@ def main():
             "guard": "WSCLIENT_VERIF",
             "enable": "no source hooks: the harness replaces module-level names of the imported package from outside "
             "(websocket._http.socket/.ssl, _dispatcher.selectors/.time, _app.time/.threading, _core.time/.threading, "
-            "_abnf.Lock, os.urandom); nothing in /repo reads the guard",
+            "_abnf.Lock, _http.HAVE_SSL, os.urandom, os.environ; websocket.enableTrace / the 'websocket' logger level for the diagnostics dimension); nothing in /repo reads the guard",
             "baseline_off_cmd": "cd /repo && /venv/bin/python -m pytest -ra -q -p no:cacheprovider --timeout=900 --continue-on-collection-errors",
             "source_commits": [],
             "add_only": True,
